@@ -9,6 +9,7 @@ EXTENDS KnownFindings, Json
 
 CONSTANTS MaxDepth,     \* number of calls
           UsePrefixes,     \* prefixes used by the calls ("" = default namespace)
+          Preset,       \* "none" | "dflt": the document and its bundle have both been given the default namespace C
           UriSet,       \* "app": application namespaces; "builtin": the PROV / XSD namespace URIs as well
           Emit,         \* "all": print one TR line per explored transition; "walk": final steps of walks
           WalkLen       \* length of a finished walk (simulation)
@@ -20,7 +21,9 @@ View == <<ms, Len(hist)>>
 A  == <<"a">>
 AB == <<"a", "b">>
 C  == <<"c">>
-NsURIs == IF UriSet = "builtin" THEN {A, ProvNS, XsdNS} ELSE {A, AB, C}
+NsURIs == IF UriSet = "builtin" THEN {A, ProvNS, XsdNS}
+          ELSE IF UriSet = "hash" THEN {A, <<"a", "hash">>, C}      \* "http://a.example/" and "http://a.example/#"
+          ELSE {A, AB, C}
 Locals == {<<"x">>, <<"b", "x">>}
 Scopes == {"doc", "bun"}
 
@@ -28,8 +31,11 @@ StrForms == {StrPL(p, l) : p \in UsePrefixes \ {""}, l \in Locals}
             \cup {StrBare(l) : l \in Locals}
             \cup {StrUri(u \o <<"x">>) : u \in NsURIs}
 
-Init == /\ ms = InitMs("docbun")
-        /\ hist = <<>>
+PreActs == IF Preset = "dflt"
+           THEN << [op |-> "SetDefault", h |-> "doc", u |-> C], [op |-> "SetDefault", h |-> "bun", u |-> C] >>
+           ELSE <<>>
+Init == /\ ms = RunF(InitMs("docbun"), PreActs, Len(PreActs))
+        /\ hist = PreActs
 
 ActsAddNs      == {[op |-> "AddNs", h |-> h, p |-> p, u |-> u] :
                      h \in Scopes, p \in UsePrefixes \ {""}, u \in NsURIs}
@@ -40,10 +46,10 @@ ActsResQN      == {[op |-> "ResQN", h |-> h, p |-> p, ns |-> u, l |-> l] :
                      h \in Scopes, p \in UsePrefixes, u \in NsURIs, l \in Locals}
 ActsResStr     == {[op |-> "ResStr", h |-> h, str |-> s] : h \in Scopes, s \in StrForms}
 
-Step(a) == /\ Len(hist) < MaxDepth
+Step(a) == /\ Len(hist) < MaxDepth + Len(PreActs)
            /\ ms' = ApplyF(ms, a).st
            /\ hist' = Append(hist, a)
-           /\ IF Emit = "all" \/ (Emit = "walk" /\ Len(hist') = WalkLen)
+           /\ IF Emit = "all" \/ (Emit = "walk" /\ Len(hist') = WalkLen + Len(PreActs))
               THEN PrintT("TR " \o ToJson(hist')) ELSE TRUE
 
 AddNs      == \E a \in ActsAddNs : Step(a)
